@@ -771,6 +771,23 @@ example : evalM [.int 1, .int 10, .str "x"] c12Arith = .ok (evalS [.int 1, .int 
 example : evalM [.int 2, .null, .str "y"] c12Cond = .ok (evalS [.int 2, .null, .str "y"] c12Cond) ∧
     (evalS [.int 2, .null, .str "y"] c12Cond = .null ∨ tyOf (evalS [.int 2, .null, .str "y"] c12Cond) = some .bool) :=
   C12.eval_matches_reference c12Cols c12Cond .bool _ c12CondTy (c12RowsOk _ (by decide))
+/-- `col0 % 2` (int): a remainder, on a full row and on a row whose dividend is null -/
+def c12Mod : Expr := .mod (.col 0) (.lit (.int 2))
+theorem c12ModTy : HasTy c12Cols c12Mod .int :=
+  .arith Expr.mod _ _ .int .int (by simp) (by simp) (by simp) (.col 0 .int rfl) (.litInt 2)
+example : evalM [.int 1, .int 10, .str "x"] c12Mod = .ok (evalS [.int 1, .int 10, .str "x"] c12Mod) ∧
+    (evalS [.int 1, .int 10, .str "x"] c12Mod = .null ∨ tyOf (evalS [.int 1, .int 10, .str "x"] c12Mod) = some .int) :=
+  C12.eval_matches_reference c12Cols c12Mod .int _ c12ModTy (c12RowsOk _ (by decide))
+example : evalM [.null, .int 0, .null] c12Mod = .ok (evalS [.null, .int 0, .null] c12Mod) ∧
+    (evalS [.null, .int 0, .null] c12Mod = .null ∨ tyOf (evalS [.null, .int 0, .null] c12Mod) = some .int) :=
+  C12.eval_matches_reference c12Cols c12Mod .int _ c12ModTy (c12RowsOk _ (by decide))
+
+-- NONVACUOUS: PysparklingVerif.C12.remainder_double_spec
+/-- `-7.5 % 2`: the divisor is not zero -/
+example : arithM .mod (.dbl (-15/2)) (.dbl 2) = .ok (.dbl (ratRem (-15/2) 2)) ∧
+    (0 ≤ (-15/2 : Rat) → 0 ≤ ratRem (-15/2) 2) ∧ ((-15/2 : Rat) ≤ 0 → ratRem (-15/2) 2 ≤ 0) ∧
+    (ratRem (-15/2) 2 < (if (0 : Rat) ≤ 2 then 2 else -2)) ∧ ((if (0 : Rat) ≤ 2 then -2 else 2) < ratRem (-15/2) 2) :=
+  C12.remainder_double_spec (-15/2) 2 (by decide +kernel)
 
 -- NONVACUOUS: PysparklingVerif.C12.filter_keeps_true
 example : filterM c12Cond c12Rows = .ok (filterS c12Cond c12Rows) :=
@@ -1577,6 +1594,7 @@ end EquivC11
 -- NO-HYPOTHESES: PysparklingVerif.C12.limit_prefix
 -- NO-HYPOTHESES: PysparklingVerif.C12.dedup_spec
 -- NO-HYPOTHESES: PysparklingVerif.C12.partition_independent
+-- NO-HYPOTHESES: PysparklingVerif.C12.remainder_spec
 -- NO-HYPOTHESES: PysparklingVerif.C13.crossJoin_eq
 -- NO-HYPOTHESES: PysparklingVerif.C14.rollup_keys
 -- NO-HYPOTHESES: PysparklingVerif.C15.sources_consistent
